@@ -97,6 +97,17 @@ pub mod step {
         assert!(v == 0.0 && r == 0.5, "starts at position 0");
         c.set_playback_hz_scale(2.0);
         assert!(c.verif_state().1 == 2.0);
+        // the setters are absolute: ANY finite positive scale replaces whatever ratio was in effect
+        let r: f64 = kani::any();
+        kani::assume(r.is_finite() && r > 0.0);
+        c.set_playback_hz_scale(r);
+        assert!(c.verif_state().1 == r, "set_playback_hz_scale(r) makes r the ratio in effect, for every r");
+        c.set_playback_hz_scale(0.5);
+        c.set_hz_to_hz(44100.0, 44100.0);
+        assert!(c.verif_state().1 == 1.0, "equal rates: ratio exactly 1");
+        c.set_playback_hz_scale(0.5);
+        c.set_sample_hz_scale(1.0);
+        assert!(c.verif_state().1 == 1.0);
         c.set_hz_to_hz(44100.0, 22050.0);
         assert!(c.verif_state().1 == 2.0);
         c.set_sample_hz_scale(4.0);
